@@ -14,9 +14,7 @@ def crate_for(repo):
     else:
         h = hashlib.sha256(os.path.abspath(repo).encode()).hexdigest()[:10]
         d = os.path.join(VERIF, 'build', 'kani-' + h)
-        if os.path.isdir(d):
-            shutil.rmtree(d)
-        shutil.copytree(KDIR, d, ignore=shutil.ignore_patterns('target'))
+        shutil.copytree(KDIR, d, ignore=shutil.ignore_patterns('target', 'Cargo.lock'), dirs_exist_ok=True)
         t = open(os.path.join(d, 'Cargo.toml')).read().replace('"/repo/', '"%s/' % os.path.abspath(repo))
         open(os.path.join(d, 'Cargo.toml'), 'w').write(t)
     shutil.copyfile(os.path.join(repo, 'Cargo.lock'), os.path.join(d, 'Cargo.lock'))
